@@ -142,7 +142,12 @@ def compile_abstract(beh, me, rnd):
                 v = "nil" if v == "nil" else names.get(v) or bind(v, p)
                 pairs.append((j, v))
             g = nxt_g.get(r, "abstain")
-            if g in ("lock", "nilpolka"):
+            if g == "locknosend":
+                # power loss inside the precommit step: after the lock WAL was synced, before the precommit leaves
+                # (effects: round-WAL vote list, lock-WAL vote list + part, lock-WAL sync | round-WAL vote, sync, send)
+                steps.append(dict(op="crash", mode=rnd.choice(["all", "torn", "synced"]), k=4))
+                steps += votes("pv", r, pairs)
+            elif g in ("lock", "nilpolka"):
                 steps += votes("pv", r, pairs)
             elif g == "timeout" and pairs:
                 steps += votes("pv", r, pairs[:1]) + votes("pv", r, [("byz", "nil")] if pairs[0][0] != "byz" else pairs[1:2])
@@ -158,7 +163,7 @@ def compile_abstract(beh, me, rnd):
                     v = pcq if pcq != "none" else "nil"
                 else:
                     gj = g.get(j, "abstain")
-                    v = polka if gj == "lock" else ("none" if gj == "abstain" else "nil")
+                    v = polka if gj == "lock" else ("none" if gj in ("abstain", "locknosend") else "nil")
                 if v == "none":
                     continue
                 pairs.append((j, "nil" if v == "nil" else names.get(v, v)))
